@@ -333,8 +333,8 @@ var registry = []propertySpec{
 		Harnesses: []harnessSpec{
 			{Name: "VerifC10_Merge", Quick: tierSpec{Cases: 54}, Thorough: tierSpec{Cases: 54}, Sched: -1,
 				Bounds: "a 3-person family merged with 9 variants of a second document (identical copy, renumbered copy, renumbered copy with more detail under facts that the base only mentions, edited renumbered copy with a dropped and an added person and a changed fact, disjoint family, disjoint family with clashing pointers, empty document, copies in which one byte of a given name is symbolic) x default / strict (0.99) / lenient (0.1) thresholds x both argument orders; the real Compare pipeline runs under the deterministic scheduler"},
-			{Name: "VerifC10_Identifiers", Quick: tierSpec{Cases: 10}, Thorough: tierSpec{Cases: 10}, Sched: -1,
-				Bounds: "a father and a son of the same name matched by unique identifiers against what the pointers say: pointers swapped in the copy (one or both with a _UID), renumbered copy with identifiers, one identifier under different names, twins of whom one has an identifier x both argument orders"},
+			{Name: "VerifC10_Identifiers", Quick: tierSpec{Cases: 14}, Thorough: tierSpec{Cases: 14}, Sched: -1,
+				Bounds: "a father and a son of the same name matched by unique identifiers against what the pointers say: pointers swapped in the copy (one or both with a _UID), renumbered copy with identifiers, one identifier under different names, twins of whom one has an identifier, copies in which only the family record is renumbered (with and without an added child) x both argument orders"},
 		},
 		Assumptions: []string{"every person carries a unique NOTE so that it can be followed through the merge; EqualityMergeFunction for the other records"},
 		Outside:     "documents with more than 4 people per side or several families per person, other merge functions, the query function (C15/C16 harnesses call it on 2 documents), schedules other than the deterministic one (C11)",
